@@ -168,3 +168,23 @@ Goal dom_C09 Kotlin (lit "KP") Proofs.C09Witness.w_clean = true /\ known_C09 Kot
              good_C09 Kotlin (lit "KP") Proofs.C09Witness.w_clean (c09_observe Kotlin fd) = true.
 Proof. exact Props.C09.C09_Kotlin_nonvacuous. Qed.
 Print Assumptions Props.C09.C09_Kotlin_nonvacuous.
+Goal Proofs.C09Witness.c09_nonvacuous TypeScript [] Proofs.C09Witness.w_clean
+    (ts_file_decls uc_exec Proofs.C09Witness.w_ts (Proofs.C09Recon.c09_reconciled Proofs.C09Witness.w_clean)) = true.
+Proof. exact Props.C09.C09_TypeScript_nonvacuous. Qed.
+Print Assumptions Props.C09.C09_TypeScript_nonvacuous.
+Goal Proofs.C09Witness.c09_nonvacuous Scala [] Proofs.C09Witness.w_clean
+    (sc_file_decls uc_exec Proofs.C09Witness.w_sc (Proofs.C09Recon.c09_reconciled Proofs.C09Witness.w_clean)) = true.
+Proof. exact Props.C09.C09_Scala_nonvacuous. Qed.
+Print Assumptions Props.C09.C09_Scala_nonvacuous.
+Goal Proofs.C09Witness.c09_nonvacuous Python [] Proofs.C09Witness.w_clean
+    (py_file_decls uc_exec Proofs.C09Witness.w_py (Proofs.C09Recon.c09_reconciled Proofs.C09Witness.w_clean)) = true.
+Proof. exact Props.C09.C09_Python_nonvacuous. Qed.
+Print Assumptions Props.C09.C09_Python_nonvacuous.
+Goal Proofs.C09Witness.c09_nonvacuous Swift (lit "OP") Proofs.C09Witness.w_clean
+    (sw_file_decls uc_exec Proofs.C09Witness.w_sw (Proofs.C09Recon.c09_reconciled Proofs.C09Witness.w_clean)) = true.
+Proof. exact Props.C09.C09_Swift_nonvacuous. Qed.
+Print Assumptions Props.C09.C09_Swift_nonvacuous.
+Goal Proofs.C09Witness.c09_nonvacuous Go [] Proofs.C09Witness.w_clean
+    (go_file_decls uc_exec (Proofs.C09Witness.w_go []) (Proofs.C09Recon.c09_reconciled Proofs.C09Witness.w_clean)) = true.
+Proof. exact Props.C09.C09_Go_nonvacuous. Qed.
+Print Assumptions Props.C09.C09_Go_nonvacuous.
